@@ -52,6 +52,8 @@ impl From<RedoErrorKind> for RedoError {
     #[verifier::external_body]
     fn from(k: RedoErrorKind) -> (r: RedoError) ensures r.kind() == k { unimplemented!() }
 }
+#[verifier::external]
+impl core::fmt::Debug for RedoError { fn fmt(&self, f: &mut core::fmt::Formatter<'_>) -> core::fmt::Result { Ok(()) } }
 #[verifier::external_body]
 pub fn fmt_stub__() -> String { unimplemented!() }
 
